@@ -18,7 +18,7 @@ import (
 func init() {
 	register("C14", PropCheck{
 		Title:      "Bytecode encoding and decoding are exact inverses",
-		Explain:    "Format agreement between the separate codecs, decided on finite tables: (R1) OpcodeString and OpcodeIndex are mutually inverse over all opcode constants, _MAX equals the largest opcode, and Vm.Run's switch, ParseAll's switch and WithDefaultHandlers cover the same twelve instructions; (R2) for each opcode the decoder's argument signature (sequence of length-prefixed symbols S, length-prefixed integers I and raw bytes B decoded on every success path of its Parse* function) equals the arity and kinds at every vm.NewLine call site with a constant opcode anywhere in the repository (library, assembler batch expansion, engine, examples, testdata) and the parameter list of the matching ParseHandler callback; (R3) primitive framing: the symbol and integer decoders' bounds arithmetic cannot wrap (every length the encoders can emit, including a 255-byte symbol, is decodable), the symbol encoder refuses more than 255 bytes, the integer encoder refuses more than 4 bytes and the integer decoder refuses a length byte above 4; the one-byte length written by the exported line builder vm.NewLine is reported where it is not proved to fit (NewLine cannot refuse: two known findings), and the assembler's batch (menu) processor, which expands through NewLine, compares every string argument it stores with 255 before keeping it; (R4) the assembler's integer encoder emits a suffix of the 4-byte big-endian buffer and never right-trims it (low-order zero bytes are significant); (R7) the primitive decoders and encoders compute no +, -, * or << in an integer type narrower than 32 bits whose result can leave the type (the zone engine bounds the operands), and narrow no value without proof - `uint32(x16<<8)` loses a byte before it is widened; (R8) the integer decoder is total over the lengths it accepts: on every success path the returned value is decoded from the operand bytes, and the length byte itself reaches the result only behind the 'length is 0' edge (added after seeded change C06-H, a decode-by-width switch without a 3-byte case).",
+		Explain:    "Format agreement between the separate codecs, decided on finite tables: (R1) OpcodeString and OpcodeIndex are mutually inverse over all opcode constants, _MAX equals the largest opcode, and Vm.Run's switch, ParseAll's switch and WithDefaultHandlers cover the same twelve instructions; (R2) for each opcode the decoder's argument signature (sequence of length-prefixed symbols S, length-prefixed integers I and raw bytes B decoded on every success path of its Parse* function) equals the arity and kinds at every vm.NewLine call site with a constant opcode anywhere in the repository (library, assembler batch expansion, engine, examples, testdata) and the parameter list of the matching ParseHandler callback; (R3) primitive framing: the symbol and integer decoders' bounds arithmetic cannot wrap (every length the encoders can emit, including a 255-byte symbol, is decodable), the symbol encoder refuses more than 255 bytes, the integer encoder refuses more than 4 bytes and the integer decoder refuses a length byte above 4; the one-byte length written by the exported line builder vm.NewLine is reported where it is not proved to fit (NewLine cannot refuse: two known findings), and the assembler's batch (menu) processor, which expands through NewLine, compares every string argument it stores with 255 before keeping it; (R4) the assembler's integer encoder emits a suffix of the 4-byte big-endian buffer and never right-trims it (low-order zero bytes are significant); (R7) the primitive decoders and encoders compute no +, -, * or << in an integer type narrower than 32 bits whose result can leave the type (the zone engine bounds the operands), and narrow no value without proof - `uint32(x16<<8)` loses a byte before it is widened; (R8) the integer decoder is total over the lengths it accepts: on every success path the returned value is decoded from the operand bytes, and the length byte itself reaches the result only behind the 'length is 0' edge (added after seeded change C06-H, a decode-by-width switch without a 3-byte case); (R9) vm.NewLine writes the width byte of its integer operand whenever the operand is non-nil - behind a nil test, never behind a comparison of its length (an empty non-nil operand is the minimal encoding of 0; added after seeded change C14-G); (R10) ParseHandler.ToString returns the contents of a buffer allocated in the call, so lines of a failed listing cannot appear in the next one (added after C14-H).",
 		NotDecided: "equality of values after a round trip for all uint32 and all strings, the log2-based width computation for every value, 'consumes exactly its own bytes' beyond the signature agreement - these are value-level; no run-time enumeration is substituted.",
 		Run:        runC14,
 	})
@@ -148,6 +148,8 @@ func runC14(w *core.World, r *core.Report) {
 	r.Rule("R4", "the assembler's integer encoder never right-trims the big-endian buffer")
 	r.Rule("R5", "Parse* functions hand out the primitive decoders' values unmodified (no constant or arithmetic on a success path)")
 	r.Rule("R6", "disassembler lines are built with constant format strings whose verb count equals the argument count")
+	r.Rule("R10", "the disassembler's listing is written into a buffer allocated for the call")
+	r.Rule("R9", "vm.NewLine writes the width byte of the integer operand behind a nil test, not a length test")
 	r.Rule("R8", "the integer decoder decodes every accepted operand length from the operand bytes (the length byte reaches the result only behind length==0)")
 	r.Rule("R7", "the primitive decoders and encoders compute nothing in an integer type narrower than 32 bits that the result can leave, and narrow nothing without proof")
 
@@ -382,6 +384,9 @@ func runC14(w *core.World, r *core.Report) {
 	}
 	// ---- R8 -----------------------------------------------------------------------------------
 	checkIntDecoderTotal(w, r, "R8")
+	// ---- R9 / R10 -----------------------------------------------------------------------------
+	checkNewLineByteArgs(w, r, "R9")
+	checkDisasmFreshBuffer(w, r, "R10")
 
 	// ---- R4 -----------------------------------------------------------------------------------
 	checkNoRightTrim(w, r, "R4")
